@@ -155,6 +155,31 @@ func c20One(o *out, text string, omitTime bool, timeAlias string, tag string) {
 	if strings.Join(again, "\x00") != strings.Join(names, "\x00") || selectSexp(q) != before {
 		o.fail("", fmt.Sprintf("ColumnNames of %q is not a pure function of the statement", text), rp)
 	}
+	// ... of the statement as it is NOW: a statement that was asked before and is then changed (a field added, an alias
+	// set, the time column switched off) answers like a statement that was changed the same way and never asked;
+	// and its clone answers like itself
+	change := func(s *influxql.SelectStatement) {
+		s.Fields = append(s.Fields, &influxql.Field{Expr: &influxql.VarRef{Val: "a"}}, &influxql.Field{Expr: &influxql.Call{Name: "mean", Args: []influxql.Expr{&influxql.VarRef{Val: "zz"}}}, Alias: "a_1"})
+		if len(s.Fields) > 2 {
+			s.Fields[0] = &influxql.Field{Expr: s.Fields[0].Expr, Alias: "renamed"}
+		}
+		s.OmitTime = !s.OmitTime
+	}
+	if st2, err2 := influxql.ParseStatement(text); err2 == nil {
+		fresh := st2.(*influxql.SelectStatement)
+		fresh.OmitTime, fresh.TimeAlias = omitTime, timeAlias
+		cl := q.Clone()
+		change(q)
+		change(fresh)
+		change(cl)
+		a, pa := c20Names(q)
+		b, pb := c20Names(fresh)
+		c, pc := c20Names(cl)
+		o.checked()
+		if pa == nil && pb == nil && pc == nil && (strings.Join(a, "\x00") != strings.Join(b, "\x00") || strings.Join(c, "\x00") != strings.Join(b, "\x00")) {
+			o.fail("", fmt.Sprintf("after changing the fields of %q: a statement that was asked before answers %q, its clone %q, one that was never asked %q", text, a, c, b), rp)
+		}
+	}
 }
 
 func propC20(o *out, r *rng, thorough bool) {
